@@ -257,6 +257,7 @@ Step(st, e) ==
     [] e.ev = "bstart_done" -> OnBstartDone(st, e)
     [] e.ev = "bcancel"     -> LET c == ClosePurge(st) IN [c EXCEPT !.bt[e.bid] = {}, !.live[e.bid] = {}]
     [] e.ev = "snap"        -> OnSnap(st, e)
+    [] e.ev = "reg"         -> st         \* the host registered a service of its own: what it sends comes back from the link as datagrams
     \* an exception that escaped the library: C15's business.  The family checks go on judging their own clauses on what
     \* follows (the rest of that datagram was not processed, which the snapshots and callbacks will show)
     \* the records of the datagram that was broken off are cached as received, or left as they were when the listener raised:
